@@ -10,6 +10,7 @@ def whole : Buf → Except Err Bytes
   | .error e => .error e
   | .chunks d s => casFull d s
   | .reader d s => casFull d s
+  | .clone d s => casFull d s
 
 theorem casFull_ok {d : Digest} {s : List Item} {x : Bytes} (h : casFull d s = .ok x) :
     d.valid x = true ∧ x.length = d.size ∧ x = (scan s).1.flatten := by
@@ -57,6 +58,7 @@ theorem whole_own {b : Buf} {e : Err} (h : whole b = .error e) : Own b e := by
   | error e' => simp [whole] at h; simp [Own, h]
   | chunks d s => exact casFull_err h
   | reader d s => exact casFull_err h
+  | clone d s => exact casFull_err h
 
 theorem whole_good {D : Bytes} {b : Buf} {x : Bytes} (g : Good D b) (h : whole b = .ok x) : x = D := by
   cases b with
@@ -67,6 +69,10 @@ theorem whole_good {D : Bytes} {b : Buf} {x : Bytes} (g : Good D b) (h : whole b
     subst h3
     exact g.2.eq_of_length (by rw [h2, g.1])
   | reader d s =>
+    obtain ⟨_, h2, h3⟩ := casFull_ok h
+    subst h3
+    exact g.2.eq_of_length (by rw [h2, g.1])
+  | clone d s =>
     obtain ⟨_, h2, h3⟩ := casFull_ok h
     subst h3
     exact g.2.eq_of_length (by rw [h2, g.1])
@@ -81,6 +87,10 @@ theorem whole_sealed {d : Digest} {D : Bytes} {b : Buf} {x : Bytes}
     obtain ⟨h1, h2, _⟩ := casFull_ok h
     exact hd x h1 h2
   | reader d' s =>
+    simp only [Sealed] at g; subst g
+    obtain ⟨h1, h2, _⟩ := casFull_ok h
+    exact hd x h1 h2
+  | clone d' s =>
     simp only [Sealed] at g; subst g
     obtain ⟨h1, h2, _⟩ := casFull_ok h
     exact hd x h1 h2
@@ -99,6 +109,11 @@ theorem baseSlice_ok {max : Nat} {b : Buf} {x : Bytes} (h : baseSlice max b = .o
     · simp [hh] at h
     · simpa [hh, whole] using h
   | reader d s =>
+    simp only [baseSlice] at h
+    by_cases hh : d.size > max
+    · simp [hh] at h
+    · simpa [hh, whole] using h
+  | clone d s =>
     simp only [baseSlice] at h
     by_cases hh : d.size > max
     · simp [hh] at h
@@ -122,6 +137,11 @@ theorem baseSlice_own {max : Nat} {b : Buf} {e : Err} (h : baseSlice max b = .er
     by_cases hh : d.size > max
     · simp [hh] at h; subst h; exact Or.inr trivial
     · simp only [hh, if_false] at h; exact casFull_err h
+  | clone d s =>
+    simp only [baseSlice] at h
+    by_cases hh : d.size > max
+    · simp [hh] at h; subst h; exact Or.inr trivial
+    · simp only [hh, if_false] at h; exact casFull_err h
 
 theorem baseReadAt_ok {off n : Nat} {b : Buf} {x : Bytes} {fl : Bool} (h : baseReadAt off n b = .ok (x, fl)) :
     ∃ data, whole b = .ok data ∧ x = (data.drop off).take n := by
@@ -134,6 +154,11 @@ theorem baseReadAt_ok {off n : Nat} {b : Buf} {x : Bytes} {fl : Bool} (h : baseR
     · rw [if_neg hh] at h; cases h; rfl
   | error e => simp [baseReadAt] at h
   | chunks d s =>
+    simp only [baseReadAt] at h
+    cases hc : casFull d s with
+    | error e => rw [hc] at h; simp at h
+    | ok data => rw [hc] at h; simp at h; exact ⟨data, hc, h.1.symm⟩
+  | clone d s =>
     simp only [baseReadAt] at h
     cases hc : casFull d s with
     | error e => rw [hc] at h; simp at h
@@ -157,6 +182,11 @@ theorem baseReadAt_own {off n : Nat} {b : Buf} {e : Err} (h : baseReadAt off n b
     by_cases hh : off > data.length <;> simp [hh] at h
   | error e' => simp [baseReadAt] at h; simp [Own, h]
   | chunks d s =>
+    simp only [baseReadAt] at h
+    cases hc : casFull d s with
+    | error e' => rw [hc] at h; simp at h; subst h; exact casFull_err hc
+    | ok data => rw [hc] at h; simp at h
+  | clone d s =>
     simp only [baseReadAt] at h
     cases hc : casFull d s with
     | error e' => rw [hc] at h; simp at h; subst h; exact casFull_err hc
@@ -214,7 +244,7 @@ theorem withEH_spec : ∀ (h : List Resp) (base : Buf),
          (∃ e, b = .error e ∧ decision h (withEH base h).2.1.length = some e))
      | .eh b d =>
         (withEH base h).2.2 = 0 ∧ (base = b ∨ Resp.repl b ∈ h) ∧
-        (∃ s, b = .chunks d s ∨ b = .reader d s) ∧
+        (∃ s, b = .chunks d s ∨ b = .reader d s ∨ b = .clone d s) ∧
         (∀ l', Chain b (h.drop (withEH base h).2.1.length) l' → Chain base h ((withEH base h).2.1 ++ l')) ∧
         (∀ k, decision h ((withEH base h).2.1.length + k) = decision (h.drop (withEH base h).2.1.length) k) ∧
         (∀ b', Resp.repl b' ∈ h.drop (withEH base h).2.1.length → Resp.repl b' ∈ h))
@@ -228,7 +258,11 @@ theorem withEH_spec : ∀ (h : List Resp) (base : Buf),
   | h, .reader d s => by
     refine ⟨by simp only [withEH]; exact .nil _ _, ?_⟩
     simp only [withEH, List.length_nil, List.drop_zero, List.nil_append, Nat.zero_add]
-    exact ⟨trivial, Or.inl trivial, ⟨s, Or.inr rfl⟩, fun l' c => c, fun k => trivial, fun b' hb => hb⟩
+    exact ⟨trivial, Or.inl trivial, ⟨s, Or.inr (Or.inl rfl)⟩, fun l' c => c, fun k => trivial, fun b' hb => hb⟩
+  | h, .clone d s => by
+    refine ⟨by simp only [withEH]; exact .nil _ _, ?_⟩
+    simp only [withEH, List.length_nil, List.drop_zero, List.nil_append, Nat.zero_add]
+    exact ⟨trivial, Or.inl trivial, ⟨s, Or.inr (Or.inr rfl)⟩, fun l' c => c, fun k => trivial, fun b' hb => hb⟩
   | [], .error e => by
     refine ⟨.last _ _ e (by simp [Own]), ?_⟩
     simp [withEH, decision]
